@@ -431,6 +431,65 @@ func runC18(c *Ctx) {
 
 	// ---- R3 ----
 	c18Coverage(c, cfgPkg)
+	c18SubValidators(c, cfgPkg)
+	c18MustNonNil(c)
+	c18CacheAfterCheck(c)
+	// validated pattern fields are not extended with unvalidated text afterwards:
+	// outside internal/config a store into a field whose contents validate()
+	// compiled may only add quoted text (regexp.QuoteMeta) or constants
+	{
+		n := 0
+		for _, fi := range p.AllFuncs() {
+			if fi.Pkg == cfgPkg || fi.Decl.Body == nil || p.IsTestFile(fi.Decl.Pos()) {
+				continue
+			}
+			info := fi.Pkg.TypesInfo
+			ast.Inspect(fi.Decl.Body, func(nd ast.Node) bool {
+				as, ok := nd.(*ast.AssignStmt)
+				if !ok || len(as.Lhs) != 1 || len(as.Rhs) != 1 {
+					return true
+				}
+				sel, ok := as.Lhs[0].(*ast.SelectorExpr)
+				if !ok {
+					return true
+				}
+				owner := fieldOwner(info, sel)
+				key := owner + "." + sel.Sel.Name
+				if !validated[key][kRegexp] {
+					return true
+				}
+				n++
+				var added []ast.Expr
+				switch r := ast.Unparen(as.Rhs[0]).(type) {
+				case *ast.CallExpr:
+					if id, ok := r.Fun.(*ast.Ident); ok && id.Name == "append" && len(r.Args) >= 2 && samePath(info, r.Args[0], sel) {
+						added = r.Args[1:]
+					} else {
+						added = []ast.Expr{r}
+					}
+				default:
+					added = []ast.Expr{r}
+				}
+				bad := ""
+				for _, a := range added {
+					a = ast.Unparen(a)
+					if _, isC := constString(info, a); isC {
+						continue
+					}
+					if call, ok := a.(*ast.CallExpr); ok {
+						if fn := Callee(info, call); fn != nil && fn.Pkg() != nil && fn.Pkg().Path() == "regexp" && fn.Name() == "QuoteMeta" {
+							continue
+						}
+					}
+					bad = roleStr(info, a)
+				}
+				c.Check(bad == "", "C18-R3", fi.Name+":"+key+" extended only with quoted or constant text after validation", as.Pos(), "quoted",
+					"`"+bad+"` is stored into "+key+" after the configuration was validated; the field is later compiled with regexp.MustCompile (strictRegex), so text with regexp metacharacters crashes lint/ci/watch — e.g. `pint --config 'conf(1.hcl' lint` (the config file's own path is appended to parser.exclude)")
+				return true
+			})
+		}
+		c.Check(n >= 1, "C18-R3", "stores into validated pattern fields outside internal/config enumerated", token.NoPos, itoa(n), "none found (expected the config path being added to parser.exclude)")
+	}
 }
 
 // c18ErrNil: dropped error => result must not be dereferenced unchecked.
@@ -869,4 +928,261 @@ func c18Coverage(c *Ctx, cfgPkg *packages.Package) {
 		})
 		c.Check(called, "C18-R3", "Check.Decode validates the decoded settings", dec.Decl.Pos(), "Validate() called", "check{} settings are decoded without Validate()")
 	}
+}
+
+// armsOf records, for every enclosing switch / if-else of n, which arm n is in.
+func armsOf(pm map[ast.Node]ast.Node, n ast.Node) map[ast.Node]ast.Node {
+	out := map[ast.Node]ast.Node{}
+	child := n
+	for cur := pm[n]; cur != nil; child, cur = cur, pm[cur] {
+		switch x := cur.(type) {
+		case *ast.CaseClause:
+			if blk, ok := pm[x].(*ast.BlockStmt); ok {
+				if sw, ok := pm[blk].(*ast.SwitchStmt); ok {
+					out[sw] = x
+				}
+			}
+		case *ast.IfStmt:
+			if child == ast.Node(x.Body) || child == x.Else {
+				out[x] = child
+			}
+		}
+	}
+	return out
+}
+
+func mutuallyExclusive(pm map[ast.Node]ast.Node, a, b ast.Node) bool {
+	aa, ab := armsOf(pm, a), armsOf(pm, b)
+	for k, va := range aa {
+		if vb, ok := ab[k]; ok && va != vb {
+			return true
+		}
+	}
+	return false
+}
+
+// c18SubValidators: inside one validate() the validations of different fields
+// do not exclude each other (arms of one switch / an else chain): a block that
+// sets two of the fields would have only the first one validated, and the other
+// reaches regexp.MustCompile unvalidated at match time.
+func c18SubValidators(c *Ctx, cfgPkg *packages.Package) {
+	p := c.P
+	n := 0
+	for _, fi := range p.AllFuncs() {
+		if fi.Pkg != cfgPkg || fi.Decl.Body == nil || p.IsTestFile(fi.Decl.Pos()) || fi.Obj.Name() != "validate" {
+			continue
+		}
+		info := fi.Pkg.TypesInfo
+		pm := parentMap(fi.Decl.Body)
+		recv := types.Object(nil)
+		if fi.Decl.Recv != nil && len(fi.Decl.Recv.List) == 1 && len(fi.Decl.Recv.List[0].Names) == 1 {
+			recv = info.Defs[fi.Decl.Recv.List[0].Names[0]]
+		}
+		type site struct {
+			call  *ast.CallExpr
+			field string
+		}
+		var sites []site
+		ast.Inspect(fi.Decl.Body, func(nd ast.Node) bool {
+			call, ok := nd.(*ast.CallExpr)
+			if !ok {
+				return true
+			}
+			// a call whose receiver or argument is a field of the validated struct
+			var fieldOf func(e ast.Expr) string
+			fieldOf = func(e ast.Expr) string {
+				e = ast.Unparen(e)
+				if sel, ok := e.(*ast.SelectorExpr); ok {
+					if isObj(info, sel.X, recv) {
+						return sel.Sel.Name
+					}
+					return fieldOf(sel.X)
+				}
+				return ""
+			}
+			f := ""
+			if sel, ok := call.Fun.(*ast.SelectorExpr); ok && sel.Sel.Name == "validate" {
+				f = fieldOf(sel.X)
+			} else if _, isV := validatorOfCall(info, call); isV && len(call.Args) > 0 {
+				f = fieldOf(call.Args[0])
+			} else if fn := Callee(info, call); fn != nil && fn.Pkg() == cfgPkg.Types && strings.HasPrefix(fn.Name(), "parse") && len(call.Args) > 0 {
+				f = fieldOf(call.Args[0])
+			}
+			if f != "" && recv != nil {
+				sites = append(sites, site{call, f})
+			}
+			return true
+		})
+		// a field's validation is not made conditional on OTHER fields of the struct
+		for _, st := range sites {
+			other := ""
+			for _, a := range lexicalGuards(pm, st.call, fi.Decl.Body) {
+				ast.Inspect(a.E, func(x ast.Node) bool {
+					if sel, ok := x.(*ast.SelectorExpr); ok && isObj(info, sel.X, recv) && sel.Sel.Name != st.field {
+						if _, isField := info.Selections[sel]; isField && info.Selections[sel].Kind() == types.FieldVal {
+							other = sel.Sel.Name
+						}
+					}
+					return true
+				})
+			}
+			if other != "" {
+				c.Bad("C18-R3", fi.Name+":validation of "+st.field+" does not depend on other fields", st.call.Pos(),
+					"the validation of "+st.field+" only runs under a condition on the field "+other+": for the other values of "+other+" an invalid "+st.field+" is accepted at load and fails (panics, for regexps) when it is used")
+			}
+		}
+		for i := 0; i < len(sites); i++ {
+			for j := i + 1; j < len(sites); j++ {
+				if sites[i].field == sites[j].field {
+					continue
+				}
+				n++
+				c.Check(!mutuallyExclusive(pm, sites[i].call, sites[j].call), "C18-R3", fi.Name+":"+sites[i].field+" and "+sites[j].field+" are validated independently", sites[j].call.Pos(), "not arms of one switch / else chain",
+					"the validations of "+sites[i].field+" and "+sites[j].field+" sit in mutually exclusive arms: a block that sets both gets only one of them validated, and the other one (e.g. an invalid regexp) is accepted at load and panics in regexp.MustCompile when rules are matched")
+			}
+		}
+	}
+	c.Check(n >= 10, "C18-R3", "pairs of field validations enumerated", token.NoPos, itoa(n), "implausibly few ("+itoa(n)+")")
+}
+
+// c18MustNonNil: Must* helpers of internal/checks that swallow an error never
+// hand out a nil pointer: the result of the fallible call is returned only on
+// the `err == nil` edge; every other return is a non-nil fallback.
+func c18MustNonNil(c *Ctx) {
+	p := c.P
+	for _, name := range []string{"internal/checks.TemplatedRegexp.MustExpand"} {
+		fi := c.MustFunc("C18-R2", name)
+		if fi == nil {
+			continue
+		}
+		info := fi.Pkg.TypesInfo
+		fl := p.NewFlow(fi)
+		var resObj, errObj types.Object
+		ast.Inspect(fi.Decl.Body, func(n ast.Node) bool {
+			as, ok := n.(*ast.AssignStmt)
+			if !ok || len(as.Lhs) != 2 || len(as.Rhs) != 1 {
+				return true
+			}
+			if _, isCall := as.Rhs[0].(*ast.CallExpr); isCall && resObj == nil {
+				resObj, errObj = objOf(info, as.Lhs[0]), objOf(info, as.Lhs[1])
+			}
+			return true
+		})
+		if resObj == nil || errObj == nil {
+			c.Undecided("C18-R2", name+":fallible call", fi.Decl.Pos(), "no `x, err := f()` found")
+			continue
+		}
+		bad := ""
+		n := 0
+		for _, r := range fl.Find(func(x ast.Node) bool {
+			ret, ok := x.(*ast.ReturnStmt)
+			return ok && len(ret.Results) == 1 && objOf(info, ret.Results[0]) == resObj
+		}) {
+			n++
+			ok := fl.Dominated(r.Site, nil, func(a Atom) bool {
+				x, isNil, isAtom := nilAtom(info, a)
+				return isAtom && isNil && objOf(info, x) == errObj
+			})
+			if !ok {
+				bad = p.Pos(r.Inner.Pos())
+			}
+		}
+		c.Check(n >= 1 && bad == "", "C18-R2", name+":result returned only when err == nil", fi.Decl.Pos(), itoa(n)+" return(s) of the result, all on the err == nil edge",
+			"the result of the fallible call is returned at "+bad+" on a path where err may be non-nil (only some kinds of error are handled): callers dereference the nil pointer — e.g. a template that fails to execute for one rule")
+	}
+}
+
+// c18CacheAfterCheck: the result of a fallible call is put into a cache
+// (sync.Map.Store / a map element) only after its error was seen to be nil;
+// otherwise the failed (nil) result is served from the cache without any error
+// the second time.
+func c18CacheAfterCheck(c *Ctx) {
+	p := c.P
+	n := 0
+	for _, fi := range p.AllFuncs() {
+		if fi.Decl.Body == nil || p.IsTestFile(fi.Decl.Pos()) || relPkg(fi.Pkg.PkgPath) != "internal/checks" {
+			continue
+		}
+		info := fi.Pkg.TypesInfo
+		// (result, err) pairs of fallible calls
+		type pair struct {
+			res, err types.Object
+			def      ast.Node
+		}
+		var pairs []pair
+		ast.Inspect(fi.Decl.Body, func(nd ast.Node) bool {
+			as, ok := nd.(*ast.AssignStmt)
+			if !ok || len(as.Lhs) != 2 || len(as.Rhs) != 1 {
+				return true
+			}
+			call, ok := as.Rhs[0].(*ast.CallExpr)
+			if !ok {
+				return true
+			}
+			if tup, ok := info.TypeOf(call).(*types.Tuple); ok && tup.Len() == 2 && tup.At(1).Type().String() == "error" && isNilable(tup.At(0).Type()) {
+				pairs = append(pairs, pair{objOf(info, as.Lhs[0]), objOf(info, as.Lhs[1]), as})
+			}
+			return true
+		})
+		if len(pairs) == 0 {
+			continue
+		}
+		var fl *Flow
+		check := func(at ast.Node, stored ast.Expr) {
+			for _, pr := range pairs {
+				if pr.res == nil || pr.err == nil || !isObj(info, stored, pr.res) {
+					continue
+				}
+				if fl == nil {
+					fl = p.NewFlow(fi)
+				}
+				n++
+				// the err == nil edge must lie between THIS call and the store (the same
+				// err variable is usually tested for earlier calls as well)
+				ok := false
+				var from *Site
+				for _, sm := range fl.Find(func(x ast.Node) bool { return x == pr.def }) {
+					s := sm.Site
+					from = &s
+				}
+				for _, sm := range fl.Find(func(x ast.Node) bool { return x == at }) {
+					if from == nil {
+						break
+					}
+					target := sm.Site
+					reach, _ := fl.Reach(from.After(), func(s Site) bool { return s == target }, false, PathQ{
+						Cut: func(atoms []Atom) bool {
+							for _, a := range atoms {
+								if x, isNil, isAtom := nilAtom(info, a); isAtom && isNil && objOf(info, x) == pr.err {
+									return true
+								}
+							}
+							return false
+						},
+					})
+					ok = !reach
+				}
+				c.Check(ok, "C18-R2", fi.Name+":result cached only after err == nil", at.Pos(), "dominated by err == nil",
+					"the result of a fallible call is stored in a cache before its error is examined: a failed (nil) result is handed out from the cache, without an error, the next time — the first failure is handled, the second one crashes")
+			}
+		}
+		ast.Inspect(fi.Decl.Body, func(nd ast.Node) bool {
+			switch x := nd.(type) {
+			case *ast.CallExpr:
+				if fn := Callee(info, x); fn != nil && fn.Pkg() != nil && fn.Pkg().Path() == "sync" && (fn.Name() == "Store" || fn.Name() == "LoadOrStore" || fn.Name() == "Swap") && len(x.Args) == 2 {
+					check(x, x.Args[1])
+				}
+			case *ast.AssignStmt:
+				if len(x.Lhs) == 1 && len(x.Rhs) == 1 {
+					if ix, ok := x.Lhs[0].(*ast.IndexExpr); ok {
+						if _, isMap := info.TypeOf(ix.X).Underlying().(*types.Map); isMap {
+							check(x, x.Rhs[0])
+						}
+					}
+				}
+			}
+			return true
+		})
+	}
+	c.Ok("C18-R2", "cache stores of fallible results enumerated", token.NoPos, itoa(n)+" site(s)")
 }
